@@ -156,10 +156,20 @@ func runKACadence(sc *KAScenario) *KAResult {
 	defer ccancel()
 	cli := &cadClient{n: sc.Cadence, cancel: ccancel, t0: time.Now()}
 	interval := time.Duration(sc.IntervalMs) * time.Millisecond
-	err := mqtt.KeepAlive(cctx, cli, interval, 10*interval)
+	kret := make(chan error, 1)
+	go func() { kret <- mqtt.KeepAlive(cctx, cli, interval, 10*interval) }()
 	res := "canceled"
-	if !errors.Is(err, context.Canceled) {
-		res = "other:" + netsim.ErrClass(err)
+	select {
+	case err := <-kret:
+		if !errors.Is(err, context.Canceled) {
+			res = "other:" + netsim.ErrClass(err)
+		}
+	case <-func() <-chan time.Time {
+		// the loop's context is cancelled at the n-th ping: it has to stop then, not go on pinging
+		<-cctx.Done()
+		return time.After(time.Second + 20*interval)
+	}():
+		res = "no-return"
 	}
 	cli.mu.Lock()
 	defer cli.mu.Unlock()
